@@ -90,6 +90,29 @@ def make_body(k, esc_false=False):
     return body
 
 
+def check_client_greeting(code, text, res):
+    """The greeting as the real Server writes it (enhanced status codes off, then the text) read by the real Client's
+    get_banner(): the reply object it returns holds the text that was written."""
+    from slimta.smtp.client import Client
+    wire, sent = wire_of([(code, text)], 'before')
+    out = []
+    rep = {'kind': 'greeting', 'code': code, 'text': text}
+    for mode in ('all', 'byte'):
+        sock = ScriptSocket(wire, FixedCtl(mode))
+        res.evaluations += 1
+        try:
+            r = Client(sock, ('mx', 25)).get_banner()
+            got = (r.code, norm(r.message) if r.message is not None else None)
+        except Exception as e:
+            got = ('raised', type(e).__name__)
+        want = (sent[0][0], norm(sent[0][1]) if sent[0][1] is not None else None)
+        if got != want:
+            out.append(({'part': 'client-greeting', 'kind': 'parsed-differs', 'text_class': text_class(text)},
+                        'greeting %r written as %r: Client.get_banner() returned %r, written was %r (%s at a time)' % ((code, text), wire, got, want, mode), rep))
+            break
+    return out
+
+
 def text_class(text):
     c = []
     if '\n' in text:
@@ -354,6 +377,10 @@ def run_config(cfg, tier, seed):
                         res.violation(*v)
                 res.interesting((code, t))
                 res.count('roundtrip_cases')
+                if code in (220, 221, 421, 450, 521, 554):
+                    for v in check_client_greeting(str(code), t, res):
+                        res.violation(*v)
+                    res.count('client_greeting_cases')
         res.sample({'part': 'A', 'code': cfg['lo'], 'texts': TEXTS_A})
     elif part == 'B':
         maxu = 4 if tier == 'quick' else 5
@@ -440,6 +467,12 @@ def vacuity(counters, tier):
 
 
 def replay(rep):
+    if rep.get('kind') == 'greeting':
+        res = Result()
+        vs = check_client_greeting(rep['code'], rep['text'], res)
+        if vs:
+            return True, vs[0][1]
+        return False, 'the client returns the greeting as written'
     res = Result()
     if rep['kind'] == 'history':
         vs = check_history([tuple(h) for h in rep['hist']], res)
